@@ -58,43 +58,51 @@ func runC18(args []string) error {
 	defer t.Close()
 	r := rand.New(rand.NewSource(*seed))
 	// fixtures and solo results per transfer syntax: computed sequentially, before any concurrency
-	fx := map[string]*concFixture{}
+	// two fixture sets: small frames (6..16: below every "image too small for the requested levels / block size" threshold)
+	// and larger ones; geometry-dependent parameter handling must be exercised both ways on every syntax
+	fxs := [2]map[string]*concFixture{{}, {}}
+	fx := fxs[0]
 	shared := map[string]codec.Parameters{}
-	for _, ts := range allTS {
-		c, err := getCodec(ts)
-		if err != nil {
-			return err
-		}
-		v := tsVariants[ts][r.Intn(len(tsVariants[ts]))]
-		// alternate small (< 32) and larger frames: geometry-dependent parameter handling must be exercised both ways
-		dim := 6 + r.Intn(11) // 6..16: below every "image too small for the requested levels / block size" threshold
-		if (len(fx)+int(*seed))%2 == 1 {
-			dim = 40 + r.Intn(30)
-		}
-		fi := frameInfo(dim, dim+r.Intn(5), v.ba, v.bs, v.spp, v.pixrep, 0)
-		f := &concFixture{fi: fi, encSolo: map[string][]string{}, decSolo: map[string][]string{}}
-		fr := c10Frames(r, fi)
-		f.frames = [][]byte{fr["A"], fr["B"]}
-		shared[ts] = c.GetDefaultParameters() // ONE shared, already valid object per syntax
-		for _, mode := range []string{"nil", "private", "shared"} {
-			enc := NewPD(fi)
-			if err := c.Encode(NewPD(fi, f.frames...), enc, paramsFor(c, ts, mode, shared)); err != nil {
-				return fmt.Errorf("solo encode %s: %v", ts, err)
+	for set := 0; set < 2; set++ {
+		for _, ts := range allTS {
+			c, err := getCodec(ts)
+			if err != nil {
+				return err
 			}
-			f.encSolo[mode] = shas(enc.frames)
-			if mode == "nil" {
-				f.streams = enc.frames
+			v := tsVariants[ts][r.Intn(len(tsVariants[ts]))]
+			dim := 6 + r.Intn(11)
+			if set == 1 {
+				dim = 40 + r.Intn(30)
 			}
-		}
-		for _, mode := range []string{"nil", "private", "shared"} {
-			dec := NewPD(fi)
-			ins := [][]byte{append([]byte{}, f.streams[0]...), append([]byte{}, f.streams[1]...)}
-			if err := c.Decode(NewPD(fi, ins...), dec, paramsFor(c, ts, mode, shared)); err != nil {
-				return fmt.Errorf("solo decode %s: %v", ts, err)
+			fi := frameInfo(dim, dim+r.Intn(5), v.ba, v.bs, v.spp, v.pixrep, 0)
+			f := &concFixture{fi: fi, encSolo: map[string][]string{}, decSolo: map[string][]string{}}
+			fr := c10Frames(r, fi)
+			f.frames = [][]byte{fr["A"], fr["B"]}
+			if set == 0 {
+				shared[ts] = c.GetDefaultParameters() // ONE shared, already valid object per syntax
 			}
-			f.decSolo[mode] = shas(dec.frames)
+			for _, mode := range []string{"nil", "private", "shared"} {
+				enc := NewPD(fi)
+				enc.copies = true
+				if err := c.Encode(NewPD(fi, f.frames...), enc, paramsFor(c, ts, mode, shared)); err != nil {
+					return fmt.Errorf("solo encode %s: %v", ts, err)
+				}
+				f.encSolo[mode] = shas(enc.frames)
+				if mode == "nil" {
+					f.streams = enc.frames
+				}
+			}
+			for _, mode := range []string{"nil", "private", "shared"} {
+				dec := NewPD(fi)
+				dec.copies = true
+				ins := [][]byte{append([]byte{}, f.streams[0]...), append([]byte{}, f.streams[1]...)}
+				if err := c.Decode(NewPD(fi, ins...), dec, paramsFor(c, ts, mode, shared)); err != nil {
+					return fmt.Errorf("solo decode %s: %v", ts, err)
+				}
+				f.decSolo[mode] = shas(dec.frames)
+			}
+			fxs[set][ts] = f
 		}
-		fx[ts] = f
 	}
 	// value snapshot of the shared parameters objects: they are "already valid", so no call may change them
 	pdigest := func() []string {
@@ -113,6 +121,7 @@ func runC18(args []string) error {
 	runSched := func(calls []concCall, gmp int, kind string) {
 		scn++
 		t.Reset(scn)
+		fx = fxs[scn%2]
 		prev := runtime.GOMAXPROCS(gmp)
 		type res struct {
 			outs []string
